@@ -215,6 +215,13 @@ inductive Res (α : Type) where
   | out (st : List (CNode α)) (confirmed warned : Bool) (calls : List (Call α))
         (inserts : List (α × List Nat × Bool)) (uni : Option α)
 
+/-- the branches on which a proposal is decided: the in-state, with the target branch appended by the cell-veto
+handlers (`vk` = 3 or 6: `self._state.append(target_cnode)`) -/
+def proposalState (vk kind : Nat) (st : List (CNode α)) (target : Option (CNode α)) : List (CNode α) :=
+  match target with
+  | some t => if kind = vk then st ++ [t] else st
+  | none => st
+
 /-! ### two-leaf-unit handlers (kinds 1, 2, 3) -/
 
 /-- `_calculate_out_state_of_two_leaf_unit_bounding_potential` -/
@@ -262,9 +269,7 @@ def sendLeaf (o : Ops α) (c : Consts α) (kind : Nat) (useCharge : Bool) (et : 
     if kind == 3 && target.isNone then .out st false false [] [] none
     else if kind == 2 && !guardOk then .invalid
     else
-      let st := match kind, target with
-        | 3, some t => st ++ [t]
-        | _, _ => st
+      let st := proposalState 3 kind st target
       let us := leafUnits st
       match us[ai]?, us[ai ^^^ 1]? with
       | some au, some tu =>
@@ -315,6 +320,29 @@ def fillLifting (o : Ops α) (locals : List (List Nat × Bool)) (targets : List 
   let h (x : Option (List Nat)) : Nat := ((x.getD []).head?).getD 0
   if h (locals.head?.map (·.1)) < h targets.head? then li ++ ti else ti ++ li
 
+/-- the bounding rate a composite-object handler uses: the sum of the positive parts of the pairwise bounds
+(kind 4), or the cell bound (kinds 5, 6) -/
+def compositeBound (o : Ops α) (kind : Nat) (b : α) (bds : List α) : α :=
+  if kind = 4 then summedBound o bds else b
+
+/-- the part of `send_out_state` of kinds 4–6 after the rates are known: warning, confirmation, lifting, exchange -/
+def calcComposite (o : Ops α) (c : Consts α) (kind : Nat) (et : Time α) (st : List (CNode α)) (ai : Nat)
+    (au : LUnit α) (locals targets : List (LUnit α)) (bound fd draw : α) (qs : List α) (pairs : List (List α))
+    (nextId : List Nat) (calls flCalls : List (Call α)) : Res α :=
+  let e := pymax0 o fd
+  if kind != 4 && !(decide (o.ofInt 0 ≤ bound)) then .err "AssertionError"   -- assert bound >= 0.0
+  else if !(confirmComposite e draw) then .out st false (warns o bound e) calls [] (some bound)
+  else
+    let ins := fillLifting o (locals.map fun l => (l.id, l.id == au.id)) (targets.map (·.id))
+      (if kind == 4 then e else fd) (targetDerivs o qs) pairs
+    let refs := leafRefs st
+    match (refs.filter fun r => ((getLeaf st r).map (·.id)) == some nextId), refs[ai]? with
+    | [t], some a =>
+      match exchange o c et st a t with
+      | some st' => .out st' true (warns o bound e) (calls ++ flCalls) ins (some bound)
+      | none => .err "AssertionError"
+    | _, _ => .err "AssertionError"          -- assert len(next_active_cnode) == 1
+
 /-- `send_out_state` of kinds 4–6.
 * kind 4: `bds` are the bounding derivatives per target unit; bound = `Σ max(0.0, ·)`; lifting filled with `event_rate`;
 * kind 5: guard; `b` returned by the cell bounding potential, `assert b >= 0.0`; lifting filled with `factor_derivative`;
@@ -330,9 +358,7 @@ def sendComposite (o : Ops α) (c : Consts α) (kind : Nat) (useCharge : Bool) (
     if kind == 6 && target.isNone then .out st false false [] [] none
     else if kind == 5 && !guardOk then .invalid
     else
-      let st := match kind, target with
-        | 6, some t => st ++ [t]
-        | _, _ => st
+      let st := proposalState 6 kind st target
       let us := leafUnits st
       match us[ai]?, constructComposite us with
       | some au, some (locals, targets) =>
@@ -343,26 +369,11 @@ def sendComposite (o : Ops α) (c : Consts α) (kind : Nat) (useCharge : Bool) (
           if kind == 4 then targets.map fun t => ⟨"B", v, sepVec o c.L au.pos t.pos, chg au t⟩
           else if kind == 5 then [⟨"B", v, [], if useCharge then au.charge :: targets.map (·.charge) else []⟩]
           else []
-        let bound := if kind == 4 then summedBound o bds else b
-        let fd := factorDerivative o qs
-        let e := pymax0 o fd
-        if kind != 4 && !(decide (o.ofInt 0 ≤ bound)) then .err "AssertionError"   -- assert bound >= 0.0
-        else
-          let calls := bcalls ++ pcalls
-          let w := warns o bound e
-          if !(confirmComposite e (dr.get o bound)) then .out st false w calls [] (some bound)
-          else
-            let flCalls : List (Call α) := (locals.filter fun l => !(l.id == au.id)).flatMap fun l =>
-              targets.map fun t => ⟨"P", v, sepVec o c.L l.pos t.pos, chg l t⟩
-            let ins := fillLifting o (locals.map fun l => (l.id, l.id == au.id)) (targets.map (·.id))
-              (if kind == 4 then e else fd) (targetDerivs o qs) pairs
-            let refs := leafRefs st
-            match (refs.filter fun r => ((getLeaf st r).map (·.id)) == some nextId), refs[ai]? with
-            | [t], some a =>
-              match exchange o c et st a t with
-              | some st' => .out st' true w (calls ++ flCalls) ins (some bound)
-              | none => .err "AssertionError"
-            | _, _ => .err "AssertionError"          -- assert len(next_active_cnode) == 1
+        let flCalls : List (Call α) := (locals.filter fun l => !(l.id == au.id)).flatMap fun l =>
+          targets.map fun t => ⟨"P", v, sepVec o c.L l.pos t.pos, chg l t⟩
+        let bound := compositeBound o kind b bds
+        calcComposite o c kind et st ai au locals targets bound (factorDerivative o qs) (dr.get o bound) qs pairs
+          nextId (bcalls ++ pcalls) flCalls
       | _, _ => .err "AssertionError"
 
 end JF.Thin
